@@ -105,6 +105,24 @@ Theorem C20_substitute_rest : forall o old' new cnt,
 Proof. exact repl_equations. Qed.
 Print Assumptions C20_substitute_rest.
 
+(* SUBSTITUTE(t, old, new, i), i >= 1, old non-empty: exactly the i-th
+   non-overlapping occurrence: no occurrence -> t; i = 1 -> the first one is
+   replaced; i >= 2 -> the first one is kept and the (i-1)-th of the rest is
+   replaced.  ([subst_nth] is the model of the function body.) *)
+Theorem C20_substitute_nth : forall t o old' new i,
+  not_code t -> not_code (o :: old') -> not_code new -> 1 <= i ->
+  X_substitute [VStr t; VStr (o :: old'); VStr new; VInt i]
+    = bind (subst_nth t (o :: old') new i) (fun r => Ok (VStr r))
+  /\ (no_occurrence (o :: old') t -> subst_nth t (o :: old') new i = Ok t)
+  /\ (forall a rest, t = a ++ (o :: old') ++ rest ->
+        (forall q, (q < length a)%nat -> str_prefix (o :: old') (skipn q t) = false) ->
+        (i = 1 -> subst_nth t (o :: old') new i = Ok (a ++ new ++ rest))
+        /\ (2 <= i -> subst_nth t (o :: old') new i
+                      = bind (subst_nth rest (o :: old') new (i - 1))
+                             (fun r => Ok (a ++ (o :: old') ++ r)))).
+Proof. exact substitute_nth. Qed.
+Print Assumptions C20_substitute_nth.
+
 (* CONCATENATE(a,b) = a & b on text *)
 Theorem C20_concatenate : forall a b, not_code a -> not_code b ->
   X_concatenate [VStr a; VStr b] = Ok (VStr (a ++ b)).
